@@ -115,14 +115,14 @@ CHECKS = {
    text='Machine-checked proof (Coq) about the ZINC writer model: a dumped grid is header line, column line, one line per row and a final newline; every row line holds exactly one cell per column; no line and no cell holds a character below U+0020 '
         '(for every grid without nested grids whose verbatim tokens - names, units, number tokens - are clean); the header is ver:"X" (X the escaped version text); a written string holds only escapes the grammar accepts and is accepted '
         'by the literal rule exactly up to its own closing quote; non-finite numbers are INF, -INF, NaN; 3.0-only kinds are refused under a pre-3.0 version. For every metadata-free 3.0 grid over strings, URIs, numbers, dates, times, letter scalars, plain references and nested lists the emitted text '
-        'is accepted by the model of the grid rule and denotes exactly the grid written (C04_grid_conforms; in general, with metadata, every kind but date-times, dicts and nested grids: C04_grid_conforms_general; version 2.0 grids with metadata: C04_grid_conforms_2_0; 3.0 grids with date-time cells, read as date-time tokens carrying exactly the written ISO text and zone name: C04_grid_conforms_datetimes). Conformance to the Haystack grammar itself '
+        'is accepted by the model of the grid rule and denotes exactly the grid written (C04_grid_conforms; in general, with metadata, every kind but date-times, dicts and nested grids: C04_grid_conforms_general; version 2.0 grids with metadata: C04_grid_conforms_2_0; 3.0 grids with date-time cells, read as date-time tokens carrying exactly the written ISO text and zone name: C04_grid_conforms_datetimes). Conformance to the grammar ITSELF is proved for literals: the string / URI production of the Haystack grammar is written as an inductive relation independent of the reader (plain characters from U+0020 other than quote and backslash, the listed backslash escapes, backslash-u with four hexadecimal digits) and every string and URI the writer emits is in it (C04_string_in_grammar, C04_uri_in_grammar). Conformance to the Haystack grammar itself '
         'is judged on every dumped grid by an independent recursive-descent ZINC reader written from the Haystack grammar (harness/zincspec.py, shares no code with hszinc), which must recover the same grid.',
    note='PARTIAL: conformance to a grammar relation is not proved in Coq (the independent reader is harness code); nested grids are excluded from the layout theorem (their text spans lines by design). Print Assumptions: closed under the global context.',
    technique='Coq proofs about the writer model (layout by induction over rows / cells, control-character freedom by induction over values) + text-equality correspondence + independent reader',
    design='DESIGN.md §3 C04'),
  'C07': dict(
    text='Machine-checked proof (Coq): WHOLE GRIDS IN BOTH FORMATS - a metadata-free 3.0 grid whose cells are strings, URIs, markers, nulls, booleans, NA, Remove or lists / dicts of those comes back as the same grid from the ZINC text and from the JSON object '
-        '(C07_grid_both_formats; in general, with grid and column metadata, nested lists / dicts / grids and every kind both value relations cover: C07_grid_both_formats_general; version 2.0 grids with grid and column metadata: C07_grid_both_formats_2_0 - reader model after writer model is the identity in either format, so parsing one format and dumping the other loses nothing on such grids). PARTIAL beyond that: on text (every code-point list as Str and Uri) each format\'s reader after its writer is the identity, both writers are total, hence any chain of transcodings is lossless '
+        '(C07_grid_both_formats; in general, with grid and column metadata, nested lists / dicts / grids and every kind both value relations cover: C07_grid_both_formats_general; version 2.0 grids with grid and column metadata: C07_grid_both_formats_2_0; a date-time in a named zone is read as the same raw ISO text and zone name from both formats: C07_datetime_both_formats - reader model after writer model is the identity in either format, so parsing one format and dumping the other loses nothing on such grids). PARTIAL beyond that: on text (every code-point list as Str and Uri) each format\'s reader after its writer is the identity, both writers are total, hence any chain of transcodings is lossless '
         'and parse-then-dump is idempotent character for character. All other kinds, parser-made objects (fixed-offset tzinfo, non-official versions), purity and determinism of dump are decided by the search on the implementation: '
         'documents of the independent ZINC and JSON writers pushed through parse -> dump (both formats) -> parse -> dump, ZINC->JSON->ZINC and JSON->ZINC->JSON, deep snapshot before / after, two dumps compared.',
    note='PARTIAL (see text). Values a JSON document can carry but ZINC cannot spell (Bin payload / unit / Ref name outside the ZINC alphabets) are outside the shared Haystack value domain and are skipped (counted in the evidence). '
